@@ -56,6 +56,9 @@ def run_case(rs, ctx):
         try:
             gen.apply_op(m, op)
         except Exception as ex:  # noqa: BLE001
+            if gen.k5_applies(m, op, type(ex).__name__):
+                ctx.violation("%s: %s raised %s: %s" % (gen.cfg_sig(cfg), gen.short(op), type(ex).__name__, str(ex)[:80]), wit, mech="K5")
+                continue  # known finding K5; the rejected query changed nothing, the history goes on
             ctx.violation("%s: %s raised %s: %s" % (gen.cfg_sig(cfg), gen.short(op), type(ex).__name__, str(ex)[:80]), wit)
             return
         if k == "add_arm":
